@@ -27,6 +27,9 @@ type c02Case struct {
 	Mem  [4]int8 `json:"mem"` // bytes at the effective address of a load
 	RAT  bool    `json:"rat"` // run on a rename-table context
 	Text string  `json:"text"`
+	// Fwd (C04): 1 / 2 = the value of rs1 / rs2 reaches the instruction through
+	// the forwarding channel while the register file still holds another value
+	Fwd int `json:"fwd,omitempty"`
 }
 
 func c02Filler(i int) int32 { return int32(1000003*i + 17) }
@@ -219,6 +222,28 @@ func c02JudgeRunner(runner risc.InstructionRunner, c c02Case) (err error) {
 	}
 	if c.RAT {
 		ctx.InitRAT()
+	}
+	if c.Fwd != 0 {
+		reg := in.Rs1
+		if c.Fwd == 2 {
+			reg = in.Rs2
+		}
+		read := false
+		for _, r := range reads {
+			if r == reg {
+				read = true
+			}
+		}
+		if reg != 0 && read {
+			// the producer's result is forwarded; the register file is stale
+			v := ctx.Registers[risc.RegisterType(reg)]
+			ctx.Registers[risc.RegisterType(reg)] = v ^ 0x5a5a5a5a
+			if c.RAT {
+				ctx.InitRAT()
+			}
+			runner.Forward(risc.Forward{Register: risc.RegisterType(reg), Value: v})
+			defer runner.Forward(risc.Forward{})
+		}
 	}
 	before := map[risc.RegisterType]int32{}
 	for k, v := range ctx.Registers {
